@@ -36,7 +36,7 @@ try:
         rc = run([here + '/check', c, '--tier', 'quick'], env=env2)
         assert ('panqec from ' + d) in rc.stdout, rc.stdout[:300] + rc.stderr[-300:]
         keys = [l.strip()[:300] for l in rc.stdout.splitlines() if l.startswith('  key=')][:3]
-        results[c] = {'verdict': {0: 'MISSED', 1: 'CAUGHT'}.get(rc.returncode, 'HARNESS-ERROR rc=%d' % rc.returncode),
+        results[c] = {'verdict': {0: 'MISSED', 1: 'CAUGHT' if 'VIOLATION property=' in rc.stdout else 'EXIT-1-WITHOUT-VIOLATION-LINE'}.get(rc.returncode, 'HARNESS-ERROR rc=%d' % rc.returncode),
                       'first_keys': keys, 'summary': rc.stdout.strip().splitlines()[-1][:250]}
     ok = (r0.returncode == 0 and r1.returncode == 1 and (no_suite or 'lost=0' in suite))
     meta = json.load(open(meta_in)) if os.path.exists(meta_in) else {}
